@@ -83,3 +83,69 @@ def run_registry(req):
 
 
 HANDLERS = {"metric": run_metric, "registry": run_registry}
+
+
+def run_purity_metric(req):
+    from opfython.math import distance as d
+    cfg = req["cfg"]
+    f = d.DISTANCES[cfg["metric"]]
+    x = np.array(req["x"], dtype=float)
+    y = np.array(req["y"], dtype=float)
+    bx, by = x.tobytes(), y.tobytes()
+    bad = []
+    v1 = float(f(x, y))
+    if x.tobytes() != bx or y.tobytes() != by:
+        bad.append("write-leaves-caller-data-unchanged")
+    f(np.array(req["y"], dtype=float), np.array(req["x"], dtype=float))
+    v2 = float(f(np.array(req["x"], dtype=float), np.array(req["y"], dtype=float)))
+    if not (v1 == v2 or (math.isnan(v1) and math.isnan(v2))):
+        bad.append("value-depends-only-on-argument-values")
+    return dict(obs=dict(v1=v1, v2=v2, x_after=[float(t) for t in x], y_after=[float(t) for t in y]), violated=bad)
+
+
+def run_purity_model(req):
+    from opfython.models.supervised import SupervisedOPF
+    from opfython.models.semi_supervised import SemiSupervisedOPF
+    from opfython.models.knn_supervised import KNNSupervisedOPF
+    from opfython.models.unsupervised import UnsupervisedOPF
+    cfg = req["cfg"]
+    model, metric, n, nq = cfg["model"], cfg["metric"], cfg["n"], cfg.get("nq", 1)
+    feats = req["feats"]
+
+    def run():
+        X = np.array([[feats[i]] for i in range(n)], dtype=float)
+        Y = np.array(cfg["labels"], dtype=int)
+        Q = np.array([[feats[n + i]] for i in range(nq)], dtype=float)
+        before = (X.tobytes(), Y.tobytes(), Q.tobytes())
+        if model == "sup":
+            o = SupervisedOPF(distance=metric)
+            o.fit(X, Y)
+            p = o.predict(Q)
+        elif model == "semi":
+            o = SemiSupervisedOPF(distance=metric)
+            o.fit(X, Y, Q)
+            p = o.predict(Q)
+        elif model == "knn":
+            o = KNNSupervisedOPF(max_k=1, distance=metric)
+            o.fit(X, Y, X, Y)
+            p = o.predict(Q)
+        else:
+            o = UnsupervisedOPF(min_k=1, max_k=1, distance=metric)
+            o.fit(X, Y)
+            p = o.predict(Q)
+        after = (X.tobytes(), Y.tobytes(), Q.tobytes())
+        g = o.subgraph
+        state = [[float(nd.cost), int(nd.pred), int(nd.predicted_label), int(nd.status)] for nd in g.nodes]
+        preds = [list(map(int, t)) for t in p] if isinstance(p, tuple) else [int(t) for t in p]
+        return before == after, state, preds
+    ok1, s1, p1 = run()
+    ok2, s2, p2 = run()
+    bad = []
+    if not ok1:
+        bad.append("write-leaves-caller-data-unchanged")
+    if s1 != s2 or p1 != p2:
+        bad.append("fitting-twice-on-equal-data-is-identical")
+    return dict(obs=dict(state=s1, preds=p1), violated=bad)
+
+
+HANDLERS.update({"purity_metric": run_purity_metric, "purity_model": run_purity_model})
